@@ -122,11 +122,17 @@ Definition read_arg (s : shape) (b : list N) : rd (list N * list N) :=
 (* ------------------------------------------------------------------ *)
 (* the generic machine                                                  *)
 
+(* what executing one opcode does: go on, STOP with a value, or raise; it sees
+   the opcode and its argument, never the rest of the input *)
+Inductive step (St V : Type) := Go (s : St) | Stop (v : V) | Bad (c : exn).
+Arguments Go {St V} s.
+Arguments Stop {St V} v.
+Arguments Bad {St V} c.
+
 Section Machine.
   Variables St V : Type.
   Variable shape_tbl : N -> option shape.
-  (* inl = continue with the new state, inr = STOP with a value *)
-  Variable exec : N -> list N -> St -> rd (St + V).
+  Variable exec : N -> list N -> St -> step St V.
 
   Fixpoint run (fuel : nat) (s : St) (b : list N) : rd (V * list N) :=
     match fuel with
@@ -142,9 +148,9 @@ Section Machine.
                 | Fail e => Fail e
                 | Got (arg, b2) =>
                     match exec op arg s with
-                    | Fail e => Fail e
-                    | Got (inl s') => run f s' b2
-                    | Got (inr v) => Got (v, b2)
+                    | Bad c => Fail (EOther c)
+                    | Go s' => run f s' b2
+                    | Stop v => Got (v, b2)
                     end
                 end
             end
@@ -189,8 +195,8 @@ Definition shape_of (op : N) : option shape :=
   end.
 
 (* opcode stream only *)
-Definition sexec (op : N) (_ : list N) (_ : unit) : rd (unit + unit) :=
-  if N.eqb op 46 then Got (inr tt) else Got (inl tt).
+Definition sexec (op : N) (_ : list N) (_ : unit) : step unit unit :=
+  if N.eqb op 46 then Stop tt else Go tt.
 Definition scan (b : list N) : rd (unit * list N) := load unit unit shape_of sexec tt b.
 
 (* ------------------------------------------------------------------ *)
@@ -280,13 +286,13 @@ Fixpoint memo_get (m : list (N * value)) (i : N) : option value :=
   | (j, v) :: r => if N.eqb i j then Some v else memo_get r i
   end.
 
-Definition underflow {A} : rd A := Fail (EOther XUnpicklingError).
-Definition typeerr {A} : rd A := Fail (EOther XTypeError).
+Definition underflow : step st value := Bad XUnpicklingError.
+Definition typeerr : step st value := Bad XTypeError.
 
-Definition push (v : value) (s : st) : rd (st + value) :=
-  Got (inl (mkst (IV v :: stk s) (memo s) (mcnt s))).
-Definition set_stk (k : list item) (s : st) : rd (st + value) :=
-  Got (inl (mkst k (memo s) (mcnt s))).
+Definition push (v : value) (s : st) : step st value :=
+  Go (mkst (IV v :: stk s) (memo s) (mcnt s)).
+Definition set_stk (k : list item) (s : st) : step st value :=
+  Go (mkst k (memo s) (mcnt s)).
 
 Fixpoint split_line (b : list N) : list N * list N :=
   match b with
@@ -294,11 +300,11 @@ Fixpoint split_line (b : list N) : list N * list N :=
   | x :: r => if N.eqb x 10 then ([], r) else let '(l, r') := split_line r in (x :: l, r')
   end.
 
-Definition vexec (op : N) (arg : list N) (s : st) : rd (st + value) :=
+Definition vexec (op : N) (arg : list N) (s : st) : step st value :=
   match op with
-  | 128 => if le arg <=? 5 then Got (inl s) else Fail (EOther XValueError)     (* PROTO *)
-  | 149 => Got (inl s)                                                         (* FRAME *)
-  | 46 => match stk s with IV v :: _ => Got (inr v) | _ => underflow end       (* STOP *)
+  | 128 => if le arg <=? 5 then Go s else Bad XValueError     (* PROTO *)
+  | 149 => Go s                                                         (* FRAME *)
+  | 46 => match stk s with IV v :: _ => Stop v | _ => underflow end       (* STOP *)
   | 40 => set_stk (IMark :: stk s) s                                           (* MARK *)
   | 78 => push VNone s
   | 136 => push (VBool true) s
@@ -315,13 +321,13 @@ Definition vexec (op : N) (arg : list N) (s : st) : rd (st + value) :=
   | 97 =>                                                                      (* APPEND *)
       match stk s with
       | IV x :: IV (VList l) :: r => set_stk (IV (VList (l ++ [x])) :: r) s
-      | IV _ :: IV _ :: _ => Fail (EOther XAttributeError)
+      | IV _ :: IV _ :: _ => Bad XAttributeError
       | _ => underflow
       end
   | 101 =>                                                                     (* APPENDS *)
       match pop_mark (stk s) [] with
       | Some (xs, IV (VList l) :: r) => set_stk (IV (VList (l ++ xs)) :: r) s
-      | Some (_, IV _ :: _) => Fail (EOther XAttributeError)
+      | Some (_, IV _ :: _) => Bad XAttributeError
       | _ => underflow
       end
   | 115 =>                                                                     (* SETITEM *)
@@ -356,23 +362,23 @@ Definition vexec (op : N) (arg : list N) (s : st) : rd (st + value) :=
            | _ => underflow end
   | 148 =>                                                                     (* MEMOIZE *)
       match stk s with
-      | IV v :: _ => Got (inl (mkst (stk s) ((mcnt s, v) :: memo s) (mcnt s + 1)))
+      | IV v :: _ => Go (mkst (stk s) ((mcnt s, v) :: memo s) (mcnt s + 1))
       | _ => underflow
       end
   | 113 | 114 =>                                                               (* BINPUT LONG_BINPUT *)
       match stk s with
-      | IV v :: _ => Got (inl (mkst (stk s) ((le arg, v) :: memo s) (mcnt s + 1)))
+      | IV v :: _ => Go (mkst (stk s) ((le arg, v) :: memo s) (mcnt s + 1))
       | _ => underflow
       end
   | 104 | 106 =>                                                               (* BINGET LONG_BINGET *)
       match memo_get (memo s) (le arg) with
       | Some v => push v s
-      | None => Fail (EOther XUnpicklingError)
+      | None => Bad XUnpicklingError
       end
   | 147 =>                                                                     (* STACK_GLOBAL *)
       match stk s with
       | IV (VStr n) :: IV (VStr m) :: r => set_stk (IV (VGlobal m n) :: r) s
-      | IV _ :: IV _ :: _ => Fail (EOther XUnpicklingError)
+      | IV _ :: IV _ :: _ => Bad XUnpicklingError
       | _ => underflow
       end
   | 99 => let '(m, n) := split_line arg in push (VGlobal m n) s                (* GLOBAL *)
@@ -390,11 +396,11 @@ Definition vexec (op : N) (arg : list N) (s : st) : rd (st + value) :=
       match stk s with
       | IV state :: IV (VObj cls args None) :: r =>
           set_stk (IV (VObj cls args (Some state)) :: r) s
-      | IV _ :: IV _ :: _ => Fail (EOther XAttributeError)
+      | IV _ :: IV _ :: _ => Bad XAttributeError
       | _ => underflow
       end
   | 48 => match stk s with _ :: r => set_stk r s | [] => underflow end         (* POP *)
-  | _ => Fail (EOther XOther)            (* an opcode outside the modelled universe *)
+  | _ => Bad XOther            (* an opcode outside the modelled universe *)
   end.
 
 Definition dec (b : list N) : rd (value * list N) := load st value shape_of vexec st0 b.
